@@ -33,7 +33,11 @@ pub fn run_one(
     let mut rng = Rng::new(seed);
     let mut sim = Sim::new(monitors);
     sim.stop_on_violation = true;
-    let cfg = WorldCfg::swarm(&mut rng);
+    let mut cfg = WorldCfg::swarm(&mut rng);
+    if profile.name == "AUTH" {
+        cfg.n_groups = 2;
+        cfg.n_banks = cfg.n_banks.min(3);
+    }
     let world = Genesis::build(&mut sim, &mut rng, &cfg);
     let genesis_len = sim.log.len();
     let mut harness_error = None;
@@ -43,12 +47,13 @@ pub fn run_one(
         Ok(mut world) => {
             // genesis itself is judged by the monitors too; a violation there is reported
             let swarm = match profile.name {
-                "TX" => Swarm::tx(&mut rng, profile.faults),
+                "TX" | "AUTH" => Swarm::tx(&mut rng, profile.faults),
                 _ => Swarm::mkt(&mut rng, profile.faults),
             };
             let (adm, adm_share) = match profile.name {
                 "ADM" => (crate::actors_adm::AdmSwarm::adm(&mut rng), rng.range(250, 600) as u32),
                 "PAUSE" => (crate::actors_adm::AdmSwarm::pause(&mut rng), rng.range(400, 800) as u32),
+                "AUTH" => (crate::actors_adm::AdmSwarm::adm(&mut rng), rng.range(200, 400) as u32),
                 _ => (crate::actors_adm::AdmSwarm::none(), 0),
             };
             let steps = rng.range(50, 400);
